@@ -48,81 +48,114 @@ def parse_rows(s):
 
 
 def predicates(ctx, sim, label):
+    """The property predicates on what the REAL code holds / wrote, for the whole restart chain of `sim`
+    (independent of the model comparison, which is done afterwards on the recorded lines).
+    Live weights = [current.frac] entries of the paths listed in [current.active] of restart.toml."""
     n = sim.n
     ncol = n - 1                      # ensemble columns (the data file shows these)
     idle_count = [0] * n
     prev_tot = None
     prev_frac = {}
-    for idx, (tag, d, held) in enumerate(sim.snaps):
-        rep = {"history": label, "params": getattr(sim, "params", None), "ctxseed": ctx.seed, "snapshot": idx, "after": tag}
-        rows = parse_rows(d["rows"])
-        rfrac = parse_frac(d["_restart_frac"]) if tag == "treat" else None
-        live = [int(t) for t in d["trajs"].split(",")[:-1]]
-        mem_frac = parse_frac(d["frac"])
-        # rows: at most once, never while live
-        pns = [r[0] for r in rows]
-        if len(set(pns)) != len(pns):
-            ctx.fail("C04:row-written-twice", f"data file lists a path twice: {pns}", rep)
-        both = set(pns) & set(live)
-        if both:
-            ctx.fail("C04:row-written-while-live", f"paths {sorted(both)} are live and already in the data file", rep)
-        if tag != "treat":
-            continue
-        if rfrac is None or set(rfrac) != set(mem_frac):
-            ctx.fail("C04:restart-frac-keys", f"restart.toml frac keys {sorted(rfrac or {})} vs live+in-flight {sorted(mem_frac)}", rep)
-            continue
-        locks = d["locks"]
-        W = [fvec(r) for r in d["W"].split(";")]
-        # totals per column from the files: data rows (masked columns count as 0) + restart fractions
-        tot = [0.0] * n
-        for (_pn, fr, _ws) in rows:
-            for c, x in enumerate(fr):
-                tot[c] += x
-        for pn, v in rfrac.items():
-            for c, x in enumerate(v):
-                tot[c] += x
-        for c in range(ncol):
-            if locks[c] == "0":
-                idle_count[c] += 1
-        if prev_tot is not None or True:
+    carry_rows = []                   # rows written by earlier segments (the data file is continued)
+    chain = list(getattr(sim, "previous", [])) + [sim]
+    last_cstep = None
+    for seg_i, seg in enumerate(chain):
+        rows = list(carry_rows)
+        prev_held, prev_d = [], None
+        for idx, (tag, d, held) in enumerate(seg.snaps):
+            rep = {"history": label, "params": getattr(sim, "params", None), "ctxseed": ctx.seed, "segment": seg_i,
+                   "snapshot": idx, "after": tag}
+            rows = carry_rows + parse_rows(d["rows"])
+            rfrac = parse_frac(d["_restart_frac"]) if tag == "treat" else None
+            live = [int(t) for t in d["trajs"].split(",")[:-1]]
+            mem_frac = parse_frac(d["frac"])
+            # rows: at most once, never while live
+            pns = [r[0] for r in rows]
+            if len(set(pns)) != len(pns):
+                ctx.fail("C04:row-written-twice", f"data file lists a path twice: {pns}", rep)
+            both = set(pns) & set(live)
+            if both:
+                ctx.fail("C04:row-written-while-live", f"paths {sorted(both)} are live and already in the data file", rep)
+            # every path number handed out so far is live (in a slot, possibly in flight) or was replaced -> has its row
+            trajnum = int(d["trajnum"])
+            gone = sorted(p for p in range(trajnum) if p not in live and p not in pns)
+            if gone and tag != "loaded":
+                ctx.fail("C04:replaced-path-has-no-row", f"paths {gone} are neither live nor in the data file "
+                         f"(traj_num {trajnum}, live {live}, rows {pns})", rep)
+            if tag != "treat":
+                prev_held, prev_d = held, d
+                continue
+            # coverage: a REJECTED move in [0-] on the initial path number 0 that already carries weight
+            done = [h for h in prev_held if h[0] not in {x[0] for x in held}]
+            if prev_d is not None and int(prev_d["trajnum"]) == trajnum and \
+                    any((e == -1 and int(p) == 0) for h in done for (e, p) in h[1]) and \
+                    any(abs(x) > 0 for x in parse_frac(prev_d["frac"]).get(0, [])):
+                ctx.hit("rejected-move-in-[0-]-on-path-0-with-weight" + ("/after-restart" if seg_i else ""))
+            active = [int(a) for a in d["_restart_active"].split(",")] if d["_restart_active"] else []
+            if rfrac is None or sorted(active) != sorted(live):
+                ctx.fail("C04:restart-active", f"restart.toml active {active} vs live paths {live}", rep)
+                prev_held, prev_d = held, d
+                continue
+            missing = sorted(p for p in active if p not in rfrac)
+            if missing or set(rfrac) != set(mem_frac):
+                ctx.fail("C04:restart-frac-keys", f"restart.toml frac keys {sorted(rfrac)} vs traj_data {sorted(mem_frac)}; "
+                         f"active without weights: {missing}", rep)
+                if missing:
+                    prev_held, prev_d = held, d
+                    continue
+            locks = d["locks"]
+            W = [fvec(r) for r in d["W"].split(";")]
+            # totals per column from the files: data rows (masked columns count as 0) + weights of the LIVE paths
+            tot = [0.0] * n
+            for (_pn, fr, _ws) in rows:
+                for c, x in enumerate(fr):
+                    tot[c] += x
+            for pn in active:
+                for c, x in enumerate(rfrac[pn]):
+                    tot[c] += x
+            for c in range(ncol):
+                if locks[c] == "0":
+                    idle_count[c] += 1
             base = prev_tot if prev_tot is not None else [0.0] * n
             for c in range(n):
                 want = 1.0 if (c < ncol and locks[c] == "0") else 0.0
                 if abs((tot[c] - base[c]) - want) > TOL:
                     ctx.fail("C04:step-does-not-add-one-per-idle-column",
-                             f"column {c}: total changed by {tot[c] - base[c]!r}, expected {want} (locks {locks})", rep)
-        for c in range(n):
-            if abs(tot[c] - (idle_count[c] if c < ncol else 0)) > 1e-7:
-                ctx.fail("C04:conservation", f"column {c}: rows+live = {tot[c]!r}, steps with that ensemble idle = {idle_count[c] if c < ncol else 0}", rep)
-        # distribution: only idle live paths, only where weight non-zero
-        slot_of = {pn: i for i, pn in enumerate(live)}
-        for pn, v in rfrac.items():
-            old = prev_frac.get(pn, [0.0] * n)
-            delta = [a - b for a, b in zip(v, old)]
-            if any(abs(x) > TOL for x in delta):
-                if pn not in slot_of:
-                    ctx.fail("C04:weight-added-to-non-live-path", f"path {pn} gained {delta}", rep)
-                    continue
-                s = slot_of[pn]
-                if locks[s] == "1":
-                    ctx.fail("C04:weight-added-to-busy-path", f"path {pn} in busy ensemble slot {s} gained {delta}", rep)
-                for c, x in enumerate(delta):
-                    if x < -TOL:
-                        ctx.fail("C04:negative-increment", f"path {pn} column {c}: {x}", rep)
-                    if abs(x) > TOL and W[s][c] == 0.0:
-                        ctx.fail("C04:weight-added-where-weight-zero", f"path {pn} column {c}: +{x} but W=0", rep)
-        prev_tot = tot
-        prev_frac = {pn: list(v) for pn, v in rfrac.items()}
-        ctx.distinct((d["_restart_frac"], d["rows"]))
-    if sim.workers == 1 and sim.snaps:
-        last = [x for x in sim.snaps if x[0] == "treat"]
-        if last:
-            cstep = int(last[-1][1]["cstep"])
-            if any(abs(idle_count[c] - cstep) > 0 for c in range(ncol)):
-                ctx.fail("C04:one-worker-total-not-cstep", f"idle counts {idle_count[:ncol]} vs cstep {cstep}",
-                         {"history": label})
-    if sim.error is not None:
-        ctx.fail("C04:sampler-raised", f"{type(sim.error).__name__}: {sim.error}", {"history": label})
+                             f"column {c}: rows + live weights changed by {tot[c] - base[c]!r}, expected {want} (locks {locks})", rep)
+            for c in range(n):
+                if abs(tot[c] - (idle_count[c] if c < ncol else 0)) > 1e-7:
+                    ctx.fail("C04:conservation", f"column {c}: rows+live = {tot[c]!r}, steps with that ensemble idle = "
+                             f"{idle_count[c] if c < ncol else 0}", rep)
+            # distribution: only idle live paths, only where weight non-zero
+            slot_of = {pn: i for i, pn in enumerate(live)}
+            for pn, v in rfrac.items():
+                old = prev_frac.get(pn, [0.0] * n)
+                delta = [a - b for a, b in zip(v, old)]
+                if any(abs(x) > TOL for x in delta):
+                    if pn not in slot_of:
+                        ctx.fail("C04:weight-added-to-non-live-path", f"path {pn} gained {delta}", rep)
+                        continue
+                    s = slot_of[pn]
+                    if locks[s] == "1":
+                        ctx.fail("C04:weight-added-to-busy-path", f"path {pn} in busy ensemble slot {s} gained {delta}", rep)
+                    for c, x in enumerate(delta):
+                        if x < -TOL:
+                            ctx.fail("C04:negative-increment", f"path {pn} column {c}: {x}", rep)
+                        if abs(x) > TOL and W[s][c] == 0.0:
+                            ctx.fail("C04:weight-added-where-weight-zero", f"path {pn} column {c}: +{x} but W=0", rep)
+            prev_tot = tot
+            prev_frac = {pn: list(v) for pn, v in rfrac.items()}
+            last_cstep = int(d["cstep"])
+            ctx.distinct((d["_restart_frac"], d["rows"], seg_i))
+            prev_held, prev_d = held, d
+        carry_rows = rows
+        if seg.error is not None:
+            ctx.fail("C04:sampler-raised", f"{type(seg.error).__name__}: {seg.error}",
+                     {"history": label, "params": getattr(sim, "params", None), "ctxseed": ctx.seed, "segment": seg_i})
+    if sim.workers == 1 and last_cstep is not None:
+        if any(abs(idle_count[c] - last_cstep) > 0 for c in range(ncol)):
+            ctx.fail("C04:one-worker-total-not-cstep", f"idle counts {idle_count[:ncol]} vs cstep {last_cstep}",
+                     {"history": label, "params": getattr(sim, "params", None), "ctxseed": ctx.seed})
 
 
 # ----------------------------------------------------------------------------------------------
@@ -370,13 +403,20 @@ def crash_family(ctx, only=None):
 
 def one(ctx, params, with_model, outs):
     n_ens, workers, steps, seed, wf, et, acc = params[:7]
+    restarts = tuple(params[7]) if len(params) > 7 and params[7] else ()
     label = f"n_ens={n_ens} workers={workers} steps={steps} seed={seed} wf={wf} eng_types={et} acc_p={acc} ctxseed={ctx.seed}"
-    sim = T.run_history(ctx, n_ens, workers, steps, seed=seed, wf=wf, eng_types=et, acc_p=acc, rng=random.Random(label))
-    sim.params = list(params)
-    ctx.count(sum(1 for s in sim.snaps if s[0] == "treat"), history=f"n{n_ens}w{workers}")
-    predicates(ctx, sim, label)
+    if restarts:
+        label += f" restarts={list(restarts)}"
+    sim = T.run_history(ctx, n_ens, workers, steps, seed=seed, wf=wf, eng_types=et, acc_p=acc, rng=random.Random(label),
+                        restarts=restarts)
+    sim.params = list(params[:7]) + [list(restarts)]
+    chain = list(getattr(sim, "previous", [])) + [sim]
+    ctx.count(sum(1 for sm in chain for s in sm.snaps if s[0] == "treat"),
+              history=f"n{n_ens}w{workers}" + ("+restarts" if restarts else ""))
+    predicates(ctx, sim, label)          # judged on the real side alone, whatever the model will say
     if with_model:
-        outs.append((sim, label))
+        for sm in chain:
+            outs.append((sm, label))
     return sim
 
 
@@ -395,11 +435,34 @@ def run(ctx):
         plans.append((n_ens, rng.randint(1, n_ens - 1), rng.randint(40, 100 if ctx.quick else 300), rng.randint(0, 9),
                       rng.random() < 0.5, 1, rng.choice([0.3, 0.7, 0.95]), n_ens <= 5))
     crash_family(ctx)
+    # restart chains (killed right after the restart file of a step was written, rebuilt from restart.toml);
+    # acc_p 0.7 / 0.5 so that rejected moves in [0-] on the initial path 0 occur before and after restarts
+    rplans = []
+    for n_ens in (2, 3, 4):
+        for w in (1, 2):
+            if w >= n_ens:
+                continue
+            for rep in range(1 if ctx.quick else 4):
+                steps = 24 + 4 * n_ens
+                rplans.append((n_ens, w, steps, rng.randint(0, 9), bool(rep % 2), 1, rng.choice([0.5, 0.7]),
+                               (steps // 4, steps // 2, 3 * steps // 4), True))
+    # early restarts with many rejections: the initial [0-] path (number 0) survives the restart and is then
+    # rejected while it carries weight
+    for n_ens in (2, 3):
+        for rep in range(3 if ctx.quick else 10):
+            rplans.append((n_ens, 1, 16, rng.randint(0, 99), False, 1, 0.3, (2, 4, 8), True))
     outs = []
     for p in plans:
         one(ctx, p[:7], p[7] and ctx._driver_ok, outs)
-    for sim, label in outs:
-        T.compare(ctx, sim, ctx.driver(sim.lines), label)
+    for p in rplans:
+        one(ctx, p[:8], p[8] and ctx._driver_ok, outs)
+    if outs:
+        # every segment starts with `init`, which resets the driver's state: one driver process for all of them
+        answers = ctx.driver([l for sm, _ in outs for l in sm.lines])
+        pos = 0
+        for sm, label in outs:
+            T.compare(ctx, sm, answers[pos:pos + len(sm.lines)], label)
+            pos += len(sm.lines)
     if outs:
         s = outs[0][0]
         tr = [x for x in s.snaps if x[0] == "treat"]
